@@ -101,7 +101,16 @@ def odd_or_ambiguous(S, Z):
 
 
 PRESERVING = ["ctor", "ctor", "ctor", "sum", "extract", "permute", "ttv"]
-CHANGING = ["unit", "unit", "absorbed", "scaled"]
+CHANGING = ["unit", "unit", "absorbed", "scaled", "balanced", "balanced", "near"]
+
+# round 3, extreme dynamic range: a component whose magnitude sits in the wrong place - one factor column scaled by
+# 2**-e and the weight (or another factor's column of the same component) by 2**+e.  Powers of two: the denoted array
+# is bit-for-bit that of the well-scaled case.  |e| <= 480 keeps every square of an entry (|x| in [1e-3, 1e3]) and
+# every sum of up to six of them inside the normal float64 range, so 2-norms are computable the plain way; the
+# exponents beyond (squares under- / overflow) are used by the cell C08/extreme-range only.
+BALANCED_EXP = [30, 40, 60, 60, 100, 400, 480, -30, -60, -100, -480]
+# round 3, near-special values: relative noise put on exactly unit columns / exactly unit weights
+NEAR_DELTA = [1e-14, 1e-12, 1e-10, 1e-8, 1e-6, 1e-5]
 
 
 @st.composite
@@ -165,9 +174,43 @@ def _prov(draw, c, which):
     if kind == "absorbed":
         return dict(kind="absorbed", wf=draw(st.sampled_from(["all"] + list(range(N)))))
     if kind == "scaled":
-        return dict(kind="scaled", s=draw(st.sampled_from([1e6, 1e-6])), where=draw(st.sampled_from(["weights", "factor"])),
-                    k=draw(st.integers(0, N - 1)))
+        return dict(kind="scaled", s=draw(st.sampled_from([1e6, 1e-6, 1e-10, 1e-13, 1e10])),
+                    where=draw(st.sampled_from(["weights", "factor"])), k=draw(st.integers(0, N - 1)))
+    if kind == "balanced":
+        return draw(balanced_prov(N, R, BALANCED_EXP))
+    if kind == "near":
+        return dict(kind="near", delta=draw(st.sampled_from(NEAR_DELTA)), phase=draw(st.integers(0, 1000)),
+                    weights=draw(st.sampled_from(["kept", "near-one", "near-one", "tiny"])),
+                    normtype=draw(st.sampled_from(["2", "2", "1", "inf"])))
     return dict(kind="ctor")
+
+
+@st.composite
+def balanced_prov(draw, N, R, exps):
+    """one or all components: column r of mode k times 2**-e, balanced by the weight or by mode k2's column"""
+    k = draw(st.integers(0, N - 1))
+    into = draw(st.sampled_from(["weight", "weight", "factor"])) if N >= 2 else "weight"
+    k2 = (k + draw(st.integers(1, N - 1))) % N if into == "factor" else None
+    comps = list(range(R)) if draw(st.integers(0, 3)) == 0 else [draw(st.integers(0, R - 1))]
+    return dict(kind="balanced", e=draw(st.sampled_from(list(exps))), k=k, k2=k2, comps=comps)
+
+
+def apply_balanced(F, w, prov):
+    """(factors, weights) of the badly balanced but identical Kruskal tensor (exact: powers of two)"""
+    F2, w2 = [f.copy() for f in F], w.copy()
+    e = prov["e"]
+    for r in prov["comps"]:
+        F2[prov["k"]][:, r] = F2[prov["k"]][:, r] * 2.0 ** (-e)
+        if prov["k2"] is None:
+            w2[r] = w2[r] * 2.0 ** e
+        else:
+            F2[prov["k2"]][:, r] = F2[prov["k2"]][:, r] * 2.0 ** e
+    return F2, w2
+
+
+def noise(n, phase):
+    """deterministic pseudo-noise in [-1, 1] (no random number generator: the case fixes it)"""
+    return np.cos(phase + 1.7 * np.arange(n) + 0.3 * np.arange(n) ** 2)
 
 
 def operand(ctx, case):
@@ -221,6 +264,23 @@ def operand(ctx, case):
         elif kind == "absorbed":
             K = ttb.ktensor([f.copy() for f in F], w.copy()).normalize(weight_factor=prov["wf"])
             changed = True
+        elif kind == "balanced":
+            F2, w2 = apply_balanced(F, w, prov)
+            K = ttb.ktensor(F2, w2)
+            changed = True
+        elif kind == "near":
+            # exactly unit columns (normalize), then relative noise of size delta on every factor entry; weights kept,
+            # or one up to noise, or tiny (1e-10: below every absolute tolerance)
+            K0 = ttb.ktensor([f.copy() for f in F], w.copy()).normalize(normtype=NORMS[prov["normtype"]])
+            F2 = [np.array(f) * (1.0 + prov["delta"] * noise(f.size, prov["phase"] + i).reshape(f.shape))
+                  for i, f in enumerate(K0.factor_matrices)]
+            w2 = np.array(K0.weights)
+            if prov["weights"] == "near-one":
+                w2 = 1.0 + prov["delta"] * noise(R, prov["phase"] + 7)
+            elif prov["weights"] == "tiny":
+                w2 = w2 * 1e-10
+            K = ttb.ktensor(F2, w2)
+            changed = True
         elif kind == "scaled":
             F2, w2 = [f.copy() for f in F], w.copy()
             if prov["where"] == "weights":
@@ -240,6 +300,11 @@ def operand(ctx, case):
             ctx.label("prov-fallback")
         return ttb.ktensor([f.copy() for f in F], w.copy()), case
     ctx.label("prov:" + kind + (":" + prov["sign"] if kind == "unit" else ""))
+    if kind == "balanced":
+        ctx.label("balanced:column-" + ("tiny" if prov["e"] > 0 else "huge") + ("-vs-weight" if prov["k2"] is None else "-vs-factor"),
+                  f"balanced:2^{-prov['e']}")
+    if kind == "near":
+        ctx.label("near:weights-" + prov["weights"], f"near:delta-{prov['delta']:g}")
     if any(not f.flags["F_CONTIGUOUS"] for f in K.factor_matrices):
         ctx.label("operand:C-ordered-factors")
     if not changed:
